@@ -11,7 +11,7 @@ pub fn info() -> PropInfo {
     PropInfo {
         id: "C01",
         level: "exploration",
-        rule: "proptest: claims tree (depth<=8, Unicode incl. non-BMP, empty containers, u64/i64/full-range f64) x strategy (NoSD/TopLevel/AllLevels/Custom paths in a[i] and a.[i] notation) x type-consistent selection (choice stream) x {Compact,JSON} x {ES256,EdDSA,HS256} x decoys x key binding; oracle: verified_claims == view(mark(U,strategy), select(sel)) [+cnf]. Non-trivial: the strategy hides >= 1 claim. Distinct: 64-bit hash of the case JSON. One case in six: the issuer instance served another subject (other claims / holder key / decoys / format) before the checked issuance.",
+        rule: "proptest: claims tree (depth<=8, Unicode incl. non-BMP, empty containers, u64/i64/full-range f64) x strategy (NoSD/TopLevel/AllLevels/Custom paths in a[i] and a.[i] notation) x type-consistent selection (choice stream) x {Compact,JSON} x {ES256,EdDSA,HS256} x decoys x key binding; oracle: verified_claims == view(mark(U,strategy), select(sel)) [+cnf]. Non-trivial: the strategy hides >= 1 claim. Distinct: 64-bit hash of the case JSON. One case in six: the issuer instance served another subject (other claims / holder key / decoys / format) before the checked issuance. Where the holder served earlier presentations, each of them is also verified first, so the verifying thread has seen other presentations of the same credential.",
         assumptions: &[
             "serde_json::Value equality is the notion of 'equal claims'",
             "test keys only (3 issuer algorithms, 2 holder key types); jsonwebtoken/ring trusted for signatures",
